@@ -84,6 +84,14 @@ def source_rep(ctx):
     vlib.proof_phase_extra(ctx, 'Properties_rep_source')
 
 
+# the phases update<Policy>() runs, in order: translators/phases.py -> Gen/GenPhase.v -> Properties_phase_source
+SOURCE_PHASE = ('C01',)
+
+
+def source_phase(ctx):
+    vlib.proof_phase_extra(ctx, 'Properties_phase_source')
+
+
 def main(pid, assumptions, level='proof', explanation=None):
     ctx = vlib.Ctx(pid)
     if ctx.replay:
@@ -104,6 +112,8 @@ def main(pid, assumptions, level='proof', explanation=None):
         source_gv(ctx)
     if pid in SOURCE_REP:
         source_rep(ctx)
+    if pid in SOURCE_PHASE:
+        source_phase(ctx)
     res = coresuite.dispatch_suite(ctx.tier, ctx.seed)
     cov = coresuite.summarize(ctx, res, pid)
     if pid == 'C03':
